@@ -17,6 +17,7 @@ type C3 = model3d.Coord3D
 
 func main() {
 	r := vlib.Start("C09", "exploration")
+	r.ScaleQuick(2.5) // quick tier: 2.5x the case counts written at the sections (still well under a minute)
 	r.Rule("seeded operation histories over small vertex pools (shared vertices, duplicate and degenerate faces, hash-colliding and signed-zero coordinates); after every step every observer is compared with a model (Go slice of face pointers + plain Go maps) and with a fresh mesh of the same faces; a history is non-trivial if it has >= 8 mutations and built the lazy index at least once; distinct by hash of the operation string")
 	r.Assume("NaN coordinates are excluded (maps are not expected to handle them)")
 	r.Assume("Mesh.Iterate order is arbitrary: all comparisons are order-insensitive")
